@@ -16,9 +16,10 @@ fi
 git apply "$out/patch$i.diff" 2>/dev/null || git apply -3 "$out/patch$i.diff" || { echo "SEED $id: patch does not apply"; exit 1; }
 git diff HEAD > /tmp/confirm_patch.$$.diff
 cargo build --offline -q 2>/tmp/confirm_build.$$.log || { echo "SEED $id: does not compile"; git reset -q --hard; exit 1; }
+SH=sh; head -1 "$out/demo$i.sh" | grep -q bash && SH=bash
 tests=$(cargo test --offline 2>&1 | grep -E "^test result" | awk '{p+=$4; f+=$6} END{print p" "f}')
-sh "$out/demo$i.sh" /tmp/confirm_orig/blockwatch >/dev/null 2>&1; r0=$?
-sh "$out/demo$i.sh" $WT/target/debug/blockwatch >/dev/null 2>&1; r1=$?
+$SH "$out/demo$i.sh" /tmp/confirm_orig/blockwatch >/dev/null 2>&1; r0=$?
+$SH "$out/demo$i.sh" $WT/target/debug/blockwatch >/dev/null 2>&1; r1=$?
 echo "SEED $id: tests(pass fail)=$tests demo_orig=$r0 demo_patched=$r1"
 if [ "$tests" = "237 0" ] && [ $r0 -eq 0 ] && [ $r1 -ne 0 ]; then
   d=/verif/seeded/$id; mkdir -p $d
